@@ -53,7 +53,11 @@ def run(ctx):
     quick = ctx["tier"] == "quick"
     tagged = [i for i in range(n_schema) if any(d.tag is not None for d in describe(classes[i]))]
     others = [i for i in range(n_schema) if i not in set(tagged)]
-    pool = r.sample(tagged, min(len(tagged), 14 if quick else 40)) + r.sample(others, 10 if quick else 60)
+    # classes with SEVERAL tagged fields first (state left behind inside a tagged section needs a second entry to fail on)
+    multi = [i for i in tagged if sum(1 for d in describe(classes[i]) if d.tag is not None) >= 2]
+    first = r.sample(multi, min(len(multi), 5 if quick else 11))
+    rest_tagged = [i for i in tagged if i not in set(first)]
+    pool = first + r.sample(rest_tagged, min(len(rest_tagged), 9 if quick else 30)) + r.sample(others, 10 if quick else 60)
     # values: for classes with tagged fields force non-default tagged values
     vals = {}
     for i in pool:
@@ -62,7 +66,7 @@ def run(ctx):
             v = gen.entity(classes[i])
             if i in tagged and k == 0:
                 for tries in range(6):
-                    v = gen.entity(classes[i])
+                    v = gen.entity(classes[i], want_default=False if tries < 3 else None)
                     enc = cc.impl_encode(classes[i], to_py(classes[i], v))
                     if enc[0] == "ok" and enc[1][-1:] != b"\x00":
                         break
@@ -152,6 +156,9 @@ def run(ctx):
                                 "history": h, "got": str(o)[:300]})
     # (ii) a fault at every stream call, then the same cached closure reused
     fault_classes = pool[: (8 if quick else 40)]
+    # a third value per class with every tagged field absent (all defaults): what a reader that kept something
+    # from an aborted call would get wrong
+    dflt_vals = {i: gen.entity(classes[i], want_default=True) for i in fault_classes}
 
     def sweep(i):
         n = 0
@@ -174,8 +181,11 @@ def run(ctx):
             # reader faults: at every read call
             probe = worker(ctx, {"ops": [["r", i, data]]})[0]
             nr = probe[3] if probe[0] == "ok" else 0
+            denc = worker(ctx, {"ops": [["w", i, to_json(dflt_vals[i])]]})[0]
             for j in range(nr):
                 ops.append(["r", i, data, j])
+                if denc[0] == "ok":
+                    ops.append(["r", i, denc[1], None, "dflt"])      # a DIFFERENT message next: retrying the same one masks leftovers
                 ops.append(["r", i, data])
             out = worker(ctx, {"ops": ops})
             n += len(ops)
@@ -194,6 +204,10 @@ def run(ctx):
                         bad.append({"what": "encoding after an earlier failed call differs from the fault-free encoding",
                                     "class": _codec.cls_name(classes, i), "got": o[1][:300], "expected": w2[1][:300],
                                     "value": op[2]})
+                elif len(op) > 4 and op[4] == "dflt":
+                    if not (o[0] == "ok" and o[1] == to_json(dflt_vals[i])):
+                        bad.append({"what": "decoding an all-default message after an earlier failed call differs", "class": _codec.cls_name(classes, i),
+                                    "got": str(o)[:300], "expected": str(to_json(dflt_vals[i]))[:300]})
                 else:
                     if not faulted and not (o[0] == "ok" and o[1] == to_json(vals[i][k])):
                         bad.append({"what": "decoding after an earlier failed call differs", "class": _codec.cls_name(classes, i),
